@@ -428,7 +428,15 @@ def run(scn):
     sim_t, tw = run_scenario(twin_scn, trace="count")
     try:
         if not (tw.outcome == "solution"):
-            raise Discard(f"twin did not complete: {tw.outcome}")
+            ob_ = scn.get("observer", {})
+            if base.expected_library_error(tw) or tw.outcome == "capped" or not tw.outcome.startswith("raised"):
+                raise Discard(f"twin did not complete: {tw.outcome}")
+            if ob_.get("preexisting") and ob_.get("output") is not None:
+                # nothing was injected into this run; all that is special about it is that names around the
+                # requested output path are taken ("a fresh name is chosen")
+                v = Violation("collision-run-failed", f"a run into which nothing was injected, with pre-existing files {sorted(ob_['preexisting'])} around its output path, raised {tw.exc[0]}: {tw.exc[1][:100]}", exc=tw.exc[0])
+                return base.summarize(scn, tw, [v], True, ("twin-failed", tw.outcome))
+            raise Discard(f"rejected:fault-free twin raised {tw.exc[0]}: {tw.exc[1][:60]}")
         resolve_line_fault(scn, tw)
         sim, h = run_scenario(scn)
         try:
